@@ -46,6 +46,41 @@ pub fn run(ctx: &mut Ctx) {
         for (l, f) in found { for x in f { ctx.fail("honest_login", x); } if let Some(l) = l { if n2 < 2 { emit_login_case(ctx, "S with 2 low-order zero bytes", &l); n2 += 1; } } }
     }
 
+    // ---- histories on ONE thread: the honest exchange must not depend on what the same thread did
+    // before (a mistyped password on the same record, another account under the same salt, the same
+    // account under a new salt).  The last login of each history also goes through the model.
+    let n_hist = if ctx.quick() { 24 } else { 400 };
+    for k in 0..n_hist {
+        let (ul, pl) = (rng.range(1, 16) as usize, rng.range(1, 16) as usize);
+        let (u, p) = (rand_cred(&mut rng, ul), rand_cred(&mut rng, pl));
+        let tape = rng.bytes(112);
+        let ln = rng.range(1, 16) as usize;
+        let other = loop { let o = rand_cred(&mut rng, ln); if o.to_uppercase() != p.to_uppercase() && o.to_uppercase() != u.to_uppercase() { break o; } };
+        let kind = k % 6;
+        let label = ["after a mistyped password on the same record", "after the same account registered with another password under the same salt",
+                     "after another account under the same salt and password", "after the same credentials under another salt",
+                     "after the same record with other session keys", "after the identical login"][kind];
+        // the step before (its own verdict is not judged here, only that it leaves no trace)
+        let before = match kind {
+            0 => login(&u, &p, &u, &other, &tape).is_ok(),
+            1 => login(&u, &other, &u, &other, &tape).is_ok(),
+            2 => login(&other, &p, &other, &p, &tape).is_ok(),
+            3 => { let mut t2 = tape.clone(); let s2 = rng.bytes(32); t2[..32].copy_from_slice(&s2); login(&u, &p, &u, &p, &t2).is_ok() }
+            4 => { let mut t2 = tape.clone(); let s2 = rng.bytes(80); t2[32..].copy_from_slice(&s2); login(&u, &p, &u, &p, &t2).is_ok() }
+            _ => login(&u, &p, &u, &p, &tape).is_ok(),
+        };
+        if kind == 0 && before { ctx.notes.push("history: a mistyped password was accepted (C02 judges that)".to_string()); }
+        let (cu, cp) = (flip_case(&mut rng, &u), flip_case(&mut rng, &p));
+        ctx.oracle_runs += 1;
+        ctx.count(&format!("oracle:history, honest login {}", label));
+        match login(&u, &p, &cu, &cp, &tape) {
+            Ok(l) => { if l.ks != l.kc { ctx.fail("honest_login", format!("{{\"history\":{},\"user\":{},\"password\":{},\"earlier_input\":{},\"tape\":\"{}\",\"error\":\"keys differ\"}}", jstr(label), jstr(&u), jstr(&p), jstr(&other), hex(&tape))); }
+                       if k < 12 || !ctx.quick() && k % 8 < 6 { emit_login_case(ctx, &format!("honest login {}", label), &l); } }
+            Err(LoginFail::BadOwnKey) => {}
+            Err(e) => ctx.fail("honest_login", format!("{{\"history\":{},\"user\":{},\"password\":{},\"client_user\":{},\"client_password\":{},\"earlier_input\":{},\"tape\":\"{}\",\"error\":{}}}", jstr(label), jstr(&u), jstr(&p), jstr(&cu), jstr(&cp), jstr(&other), hex(&tape), jstr(&format!("{:?}", e)))),
+        }
+    }
+
     // ---- implementation-only oracle: many honest logins, all must succeed with equal keys ----
     let per_thread = if ctx.quick() { 2_000 } else { 500_000 };
     let seed = ctx.seed;
